@@ -56,126 +56,126 @@ package action
 //@ func propOptionsconfigUpdateinitialFunding
 //@   safety C18
 //@   requires ctx != nil && ctx.GovernanceStore != nil && ctx.Header != nil && ctx.ProposalMasterStore != nil && ctx.ProposalMasterStore.Proposal != nil                                                       // C18.ctx
-//@   ensures validationOnly == ValidateOnly ==> govWrites(ctx.GovernanceStore) == old(govWrites(ctx.GovernanceStore)) && vHas(ctx.GovernanceStore.state) == old(vHas(ctx.GovernanceStore.state)) && vVal(ctx.GovernanceStore.state) == old(vVal(ctx.GovernanceStore.state)) && ctx.GovernanceStore.height == old(ctx.GovernanceStore.height) && (ctx.ProposalMasterStore != nil && ctx.ProposalMasterStore.Proposal != nil ==> ctx.ProposalMasterStore.Proposal.proposalOptions == old(ctx.ProposalMasterStore.Proposal.proposalOptions))   // C14.validate-only-pure
+//@   ensures validationOnly == ValidateOnly ==> govWrites(ctx.GovernanceStore) == old(govWrites(ctx.GovernanceStore)) && vHas(ctx.GovernanceStore.state) == old(vHas(ctx.GovernanceStore.state)) && vVal(ctx.GovernanceStore.state) == old(vVal(ctx.GovernanceStore.state)) && ctx.GovernanceStore.height == old(ctx.GovernanceStore.height) && (ctx.ProposalMasterStore != nil && ctx.ProposalMasterStore.Proposal != nil ==> ctx.ProposalMasterStore.Proposal.proposalOptions == old(ctx.ProposalMasterStore.Proposal.proposalOptions) && (ctx.ProposalMasterStore.Proposal.proposalOptions != nil ==> *ctx.ProposalMasterStore.Proposal.proposalOptions == old(*ctx.ProposalMasterStore.Proposal.proposalOptions)))   // C14.validate-only-pure
 //@   ensures result0 ==> err == nil                                                                             // C14.update-result
 //@   ensures !result0 ==> err != nil                                                                            // C14.update-result
 
 //@ func propOptionscodeChangeinitialFunding
 //@   safety C18
 //@   requires ctx != nil && ctx.GovernanceStore != nil && ctx.Header != nil && ctx.ProposalMasterStore != nil && ctx.ProposalMasterStore.Proposal != nil                                                       // C18.ctx
-//@   ensures validationOnly == ValidateOnly ==> govWrites(ctx.GovernanceStore) == old(govWrites(ctx.GovernanceStore)) && vHas(ctx.GovernanceStore.state) == old(vHas(ctx.GovernanceStore.state)) && vVal(ctx.GovernanceStore.state) == old(vVal(ctx.GovernanceStore.state)) && ctx.GovernanceStore.height == old(ctx.GovernanceStore.height) && (ctx.ProposalMasterStore != nil && ctx.ProposalMasterStore.Proposal != nil ==> ctx.ProposalMasterStore.Proposal.proposalOptions == old(ctx.ProposalMasterStore.Proposal.proposalOptions))   // C14.validate-only-pure
+//@   ensures validationOnly == ValidateOnly ==> govWrites(ctx.GovernanceStore) == old(govWrites(ctx.GovernanceStore)) && vHas(ctx.GovernanceStore.state) == old(vHas(ctx.GovernanceStore.state)) && vVal(ctx.GovernanceStore.state) == old(vVal(ctx.GovernanceStore.state)) && ctx.GovernanceStore.height == old(ctx.GovernanceStore.height) && (ctx.ProposalMasterStore != nil && ctx.ProposalMasterStore.Proposal != nil ==> ctx.ProposalMasterStore.Proposal.proposalOptions == old(ctx.ProposalMasterStore.Proposal.proposalOptions) && (ctx.ProposalMasterStore.Proposal.proposalOptions != nil ==> *ctx.ProposalMasterStore.Proposal.proposalOptions == old(*ctx.ProposalMasterStore.Proposal.proposalOptions)))   // C14.validate-only-pure
 //@   ensures result0 ==> err == nil                                                                             // C14.update-result
 //@   ensures !result0 ==> err != nil                                                                            // C14.update-result
 
 //@ func propOptionsgeneralinitialFunding
 //@   safety C18
 //@   requires ctx != nil && ctx.GovernanceStore != nil && ctx.Header != nil && ctx.ProposalMasterStore != nil && ctx.ProposalMasterStore.Proposal != nil                                                       // C18.ctx
-//@   ensures validationOnly == ValidateOnly ==> govWrites(ctx.GovernanceStore) == old(govWrites(ctx.GovernanceStore)) && vHas(ctx.GovernanceStore.state) == old(vHas(ctx.GovernanceStore.state)) && vVal(ctx.GovernanceStore.state) == old(vVal(ctx.GovernanceStore.state)) && ctx.GovernanceStore.height == old(ctx.GovernanceStore.height) && (ctx.ProposalMasterStore != nil && ctx.ProposalMasterStore.Proposal != nil ==> ctx.ProposalMasterStore.Proposal.proposalOptions == old(ctx.ProposalMasterStore.Proposal.proposalOptions))   // C14.validate-only-pure
+//@   ensures validationOnly == ValidateOnly ==> govWrites(ctx.GovernanceStore) == old(govWrites(ctx.GovernanceStore)) && vHas(ctx.GovernanceStore.state) == old(vHas(ctx.GovernanceStore.state)) && vVal(ctx.GovernanceStore.state) == old(vVal(ctx.GovernanceStore.state)) && ctx.GovernanceStore.height == old(ctx.GovernanceStore.height) && (ctx.ProposalMasterStore != nil && ctx.ProposalMasterStore.Proposal != nil ==> ctx.ProposalMasterStore.Proposal.proposalOptions == old(ctx.ProposalMasterStore.Proposal.proposalOptions) && (ctx.ProposalMasterStore.Proposal.proposalOptions != nil ==> *ctx.ProposalMasterStore.Proposal.proposalOptions == old(*ctx.ProposalMasterStore.Proposal.proposalOptions)))   // C14.validate-only-pure
 //@   ensures result0 ==> err == nil                                                                             // C14.update-result
 //@   ensures !result0 ==> err != nil                                                                            // C14.update-result
 
 //@ func propOptionsconfigUpdatefundingGoal
 //@   safety C18
 //@   requires ctx != nil && ctx.GovernanceStore != nil && ctx.Header != nil && ctx.ProposalMasterStore != nil && ctx.ProposalMasterStore.Proposal != nil                                                       // C18.ctx
-//@   ensures validationOnly == ValidateOnly ==> govWrites(ctx.GovernanceStore) == old(govWrites(ctx.GovernanceStore)) && vHas(ctx.GovernanceStore.state) == old(vHas(ctx.GovernanceStore.state)) && vVal(ctx.GovernanceStore.state) == old(vVal(ctx.GovernanceStore.state)) && ctx.GovernanceStore.height == old(ctx.GovernanceStore.height) && (ctx.ProposalMasterStore != nil && ctx.ProposalMasterStore.Proposal != nil ==> ctx.ProposalMasterStore.Proposal.proposalOptions == old(ctx.ProposalMasterStore.Proposal.proposalOptions))   // C14.validate-only-pure
+//@   ensures validationOnly == ValidateOnly ==> govWrites(ctx.GovernanceStore) == old(govWrites(ctx.GovernanceStore)) && vHas(ctx.GovernanceStore.state) == old(vHas(ctx.GovernanceStore.state)) && vVal(ctx.GovernanceStore.state) == old(vVal(ctx.GovernanceStore.state)) && ctx.GovernanceStore.height == old(ctx.GovernanceStore.height) && (ctx.ProposalMasterStore != nil && ctx.ProposalMasterStore.Proposal != nil ==> ctx.ProposalMasterStore.Proposal.proposalOptions == old(ctx.ProposalMasterStore.Proposal.proposalOptions) && (ctx.ProposalMasterStore.Proposal.proposalOptions != nil ==> *ctx.ProposalMasterStore.Proposal.proposalOptions == old(*ctx.ProposalMasterStore.Proposal.proposalOptions)))   // C14.validate-only-pure
 //@   ensures result0 ==> err == nil                                                                             // C14.update-result
 //@   ensures !result0 ==> err != nil                                                                            // C14.update-result
 
 //@ func propOptionscodeChangefundingGoal
 //@   safety C18
 //@   requires ctx != nil && ctx.GovernanceStore != nil && ctx.Header != nil && ctx.ProposalMasterStore != nil && ctx.ProposalMasterStore.Proposal != nil                                                       // C18.ctx
-//@   ensures validationOnly == ValidateOnly ==> govWrites(ctx.GovernanceStore) == old(govWrites(ctx.GovernanceStore)) && vHas(ctx.GovernanceStore.state) == old(vHas(ctx.GovernanceStore.state)) && vVal(ctx.GovernanceStore.state) == old(vVal(ctx.GovernanceStore.state)) && ctx.GovernanceStore.height == old(ctx.GovernanceStore.height) && (ctx.ProposalMasterStore != nil && ctx.ProposalMasterStore.Proposal != nil ==> ctx.ProposalMasterStore.Proposal.proposalOptions == old(ctx.ProposalMasterStore.Proposal.proposalOptions))   // C14.validate-only-pure
+//@   ensures validationOnly == ValidateOnly ==> govWrites(ctx.GovernanceStore) == old(govWrites(ctx.GovernanceStore)) && vHas(ctx.GovernanceStore.state) == old(vHas(ctx.GovernanceStore.state)) && vVal(ctx.GovernanceStore.state) == old(vVal(ctx.GovernanceStore.state)) && ctx.GovernanceStore.height == old(ctx.GovernanceStore.height) && (ctx.ProposalMasterStore != nil && ctx.ProposalMasterStore.Proposal != nil ==> ctx.ProposalMasterStore.Proposal.proposalOptions == old(ctx.ProposalMasterStore.Proposal.proposalOptions) && (ctx.ProposalMasterStore.Proposal.proposalOptions != nil ==> *ctx.ProposalMasterStore.Proposal.proposalOptions == old(*ctx.ProposalMasterStore.Proposal.proposalOptions)))   // C14.validate-only-pure
 //@   ensures result0 ==> err == nil                                                                             // C14.update-result
 //@   ensures !result0 ==> err != nil                                                                            // C14.update-result
 
 //@ func propOptionsgeneralfundingGoal
 //@   safety C18
 //@   requires ctx != nil && ctx.GovernanceStore != nil && ctx.Header != nil && ctx.ProposalMasterStore != nil && ctx.ProposalMasterStore.Proposal != nil                                                       // C18.ctx
-//@   ensures validationOnly == ValidateOnly ==> govWrites(ctx.GovernanceStore) == old(govWrites(ctx.GovernanceStore)) && vHas(ctx.GovernanceStore.state) == old(vHas(ctx.GovernanceStore.state)) && vVal(ctx.GovernanceStore.state) == old(vVal(ctx.GovernanceStore.state)) && ctx.GovernanceStore.height == old(ctx.GovernanceStore.height) && (ctx.ProposalMasterStore != nil && ctx.ProposalMasterStore.Proposal != nil ==> ctx.ProposalMasterStore.Proposal.proposalOptions == old(ctx.ProposalMasterStore.Proposal.proposalOptions))   // C14.validate-only-pure
+//@   ensures validationOnly == ValidateOnly ==> govWrites(ctx.GovernanceStore) == old(govWrites(ctx.GovernanceStore)) && vHas(ctx.GovernanceStore.state) == old(vHas(ctx.GovernanceStore.state)) && vVal(ctx.GovernanceStore.state) == old(vVal(ctx.GovernanceStore.state)) && ctx.GovernanceStore.height == old(ctx.GovernanceStore.height) && (ctx.ProposalMasterStore != nil && ctx.ProposalMasterStore.Proposal != nil ==> ctx.ProposalMasterStore.Proposal.proposalOptions == old(ctx.ProposalMasterStore.Proposal.proposalOptions) && (ctx.ProposalMasterStore.Proposal.proposalOptions != nil ==> *ctx.ProposalMasterStore.Proposal.proposalOptions == old(*ctx.ProposalMasterStore.Proposal.proposalOptions)))   // C14.validate-only-pure
 //@   ensures result0 ==> err == nil                                                                             // C14.update-result
 //@   ensures !result0 ==> err != nil                                                                            // C14.update-result
 
 //@ func propOptionsconfigUpdatevotingDeadline
 //@   safety C18
 //@   requires ctx != nil && ctx.GovernanceStore != nil && ctx.Header != nil && ctx.ProposalMasterStore != nil && ctx.ProposalMasterStore.Proposal != nil                                                       // C18.ctx
-//@   ensures validationOnly == ValidateOnly ==> govWrites(ctx.GovernanceStore) == old(govWrites(ctx.GovernanceStore)) && vHas(ctx.GovernanceStore.state) == old(vHas(ctx.GovernanceStore.state)) && vVal(ctx.GovernanceStore.state) == old(vVal(ctx.GovernanceStore.state)) && ctx.GovernanceStore.height == old(ctx.GovernanceStore.height) && (ctx.ProposalMasterStore != nil && ctx.ProposalMasterStore.Proposal != nil ==> ctx.ProposalMasterStore.Proposal.proposalOptions == old(ctx.ProposalMasterStore.Proposal.proposalOptions))   // C14.validate-only-pure
+//@   ensures validationOnly == ValidateOnly ==> govWrites(ctx.GovernanceStore) == old(govWrites(ctx.GovernanceStore)) && vHas(ctx.GovernanceStore.state) == old(vHas(ctx.GovernanceStore.state)) && vVal(ctx.GovernanceStore.state) == old(vVal(ctx.GovernanceStore.state)) && ctx.GovernanceStore.height == old(ctx.GovernanceStore.height) && (ctx.ProposalMasterStore != nil && ctx.ProposalMasterStore.Proposal != nil ==> ctx.ProposalMasterStore.Proposal.proposalOptions == old(ctx.ProposalMasterStore.Proposal.proposalOptions) && (ctx.ProposalMasterStore.Proposal.proposalOptions != nil ==> *ctx.ProposalMasterStore.Proposal.proposalOptions == old(*ctx.ProposalMasterStore.Proposal.proposalOptions)))   // C14.validate-only-pure
 //@   ensures result0 ==> err == nil                                                                             // C14.update-result
 //@   ensures !result0 ==> err != nil                                                                            // C14.update-result
 
 //@ func propOptionscodeChangevotingDeadline
 //@   safety C18
 //@   requires ctx != nil && ctx.GovernanceStore != nil && ctx.Header != nil && ctx.ProposalMasterStore != nil && ctx.ProposalMasterStore.Proposal != nil                                                       // C18.ctx
-//@   ensures validationOnly == ValidateOnly ==> govWrites(ctx.GovernanceStore) == old(govWrites(ctx.GovernanceStore)) && vHas(ctx.GovernanceStore.state) == old(vHas(ctx.GovernanceStore.state)) && vVal(ctx.GovernanceStore.state) == old(vVal(ctx.GovernanceStore.state)) && ctx.GovernanceStore.height == old(ctx.GovernanceStore.height) && (ctx.ProposalMasterStore != nil && ctx.ProposalMasterStore.Proposal != nil ==> ctx.ProposalMasterStore.Proposal.proposalOptions == old(ctx.ProposalMasterStore.Proposal.proposalOptions))   // C14.validate-only-pure
+//@   ensures validationOnly == ValidateOnly ==> govWrites(ctx.GovernanceStore) == old(govWrites(ctx.GovernanceStore)) && vHas(ctx.GovernanceStore.state) == old(vHas(ctx.GovernanceStore.state)) && vVal(ctx.GovernanceStore.state) == old(vVal(ctx.GovernanceStore.state)) && ctx.GovernanceStore.height == old(ctx.GovernanceStore.height) && (ctx.ProposalMasterStore != nil && ctx.ProposalMasterStore.Proposal != nil ==> ctx.ProposalMasterStore.Proposal.proposalOptions == old(ctx.ProposalMasterStore.Proposal.proposalOptions) && (ctx.ProposalMasterStore.Proposal.proposalOptions != nil ==> *ctx.ProposalMasterStore.Proposal.proposalOptions == old(*ctx.ProposalMasterStore.Proposal.proposalOptions)))   // C14.validate-only-pure
 //@   ensures result0 ==> err == nil                                                                             // C14.update-result
 //@   ensures !result0 ==> err != nil                                                                            // C14.update-result
 
 //@ func propOptionsgeneralvotingDeadline
 //@   safety C18
 //@   requires ctx != nil && ctx.GovernanceStore != nil && ctx.Header != nil && ctx.ProposalMasterStore != nil && ctx.ProposalMasterStore.Proposal != nil                                                       // C18.ctx
-//@   ensures validationOnly == ValidateOnly ==> govWrites(ctx.GovernanceStore) == old(govWrites(ctx.GovernanceStore)) && vHas(ctx.GovernanceStore.state) == old(vHas(ctx.GovernanceStore.state)) && vVal(ctx.GovernanceStore.state) == old(vVal(ctx.GovernanceStore.state)) && ctx.GovernanceStore.height == old(ctx.GovernanceStore.height) && (ctx.ProposalMasterStore != nil && ctx.ProposalMasterStore.Proposal != nil ==> ctx.ProposalMasterStore.Proposal.proposalOptions == old(ctx.ProposalMasterStore.Proposal.proposalOptions))   // C14.validate-only-pure
+//@   ensures validationOnly == ValidateOnly ==> govWrites(ctx.GovernanceStore) == old(govWrites(ctx.GovernanceStore)) && vHas(ctx.GovernanceStore.state) == old(vHas(ctx.GovernanceStore.state)) && vVal(ctx.GovernanceStore.state) == old(vVal(ctx.GovernanceStore.state)) && ctx.GovernanceStore.height == old(ctx.GovernanceStore.height) && (ctx.ProposalMasterStore != nil && ctx.ProposalMasterStore.Proposal != nil ==> ctx.ProposalMasterStore.Proposal.proposalOptions == old(ctx.ProposalMasterStore.Proposal.proposalOptions) && (ctx.ProposalMasterStore.Proposal.proposalOptions != nil ==> *ctx.ProposalMasterStore.Proposal.proposalOptions == old(*ctx.ProposalMasterStore.Proposal.proposalOptions)))   // C14.validate-only-pure
 //@   ensures result0 ==> err == nil                                                                             // C14.update-result
 //@   ensures !result0 ==> err != nil                                                                            // C14.update-result
 
 //@ func propOptionsconfigUpdatefundingDeadline
 //@   safety C18
 //@   requires ctx != nil && ctx.GovernanceStore != nil && ctx.Header != nil && ctx.ProposalMasterStore != nil && ctx.ProposalMasterStore.Proposal != nil                                                       // C18.ctx
-//@   ensures validationOnly == ValidateOnly ==> govWrites(ctx.GovernanceStore) == old(govWrites(ctx.GovernanceStore)) && vHas(ctx.GovernanceStore.state) == old(vHas(ctx.GovernanceStore.state)) && vVal(ctx.GovernanceStore.state) == old(vVal(ctx.GovernanceStore.state)) && ctx.GovernanceStore.height == old(ctx.GovernanceStore.height) && (ctx.ProposalMasterStore != nil && ctx.ProposalMasterStore.Proposal != nil ==> ctx.ProposalMasterStore.Proposal.proposalOptions == old(ctx.ProposalMasterStore.Proposal.proposalOptions))   // C14.validate-only-pure
+//@   ensures validationOnly == ValidateOnly ==> govWrites(ctx.GovernanceStore) == old(govWrites(ctx.GovernanceStore)) && vHas(ctx.GovernanceStore.state) == old(vHas(ctx.GovernanceStore.state)) && vVal(ctx.GovernanceStore.state) == old(vVal(ctx.GovernanceStore.state)) && ctx.GovernanceStore.height == old(ctx.GovernanceStore.height) && (ctx.ProposalMasterStore != nil && ctx.ProposalMasterStore.Proposal != nil ==> ctx.ProposalMasterStore.Proposal.proposalOptions == old(ctx.ProposalMasterStore.Proposal.proposalOptions) && (ctx.ProposalMasterStore.Proposal.proposalOptions != nil ==> *ctx.ProposalMasterStore.Proposal.proposalOptions == old(*ctx.ProposalMasterStore.Proposal.proposalOptions)))   // C14.validate-only-pure
 //@   ensures result0 ==> err == nil                                                                             // C14.update-result
 //@   ensures !result0 ==> err != nil                                                                            // C14.update-result
 
 //@ func propOptionscodeChangefundingDeadline
 //@   safety C18
 //@   requires ctx != nil && ctx.GovernanceStore != nil && ctx.Header != nil && ctx.ProposalMasterStore != nil && ctx.ProposalMasterStore.Proposal != nil                                                       // C18.ctx
-//@   ensures validationOnly == ValidateOnly ==> govWrites(ctx.GovernanceStore) == old(govWrites(ctx.GovernanceStore)) && vHas(ctx.GovernanceStore.state) == old(vHas(ctx.GovernanceStore.state)) && vVal(ctx.GovernanceStore.state) == old(vVal(ctx.GovernanceStore.state)) && ctx.GovernanceStore.height == old(ctx.GovernanceStore.height) && (ctx.ProposalMasterStore != nil && ctx.ProposalMasterStore.Proposal != nil ==> ctx.ProposalMasterStore.Proposal.proposalOptions == old(ctx.ProposalMasterStore.Proposal.proposalOptions))   // C14.validate-only-pure
+//@   ensures validationOnly == ValidateOnly ==> govWrites(ctx.GovernanceStore) == old(govWrites(ctx.GovernanceStore)) && vHas(ctx.GovernanceStore.state) == old(vHas(ctx.GovernanceStore.state)) && vVal(ctx.GovernanceStore.state) == old(vVal(ctx.GovernanceStore.state)) && ctx.GovernanceStore.height == old(ctx.GovernanceStore.height) && (ctx.ProposalMasterStore != nil && ctx.ProposalMasterStore.Proposal != nil ==> ctx.ProposalMasterStore.Proposal.proposalOptions == old(ctx.ProposalMasterStore.Proposal.proposalOptions) && (ctx.ProposalMasterStore.Proposal.proposalOptions != nil ==> *ctx.ProposalMasterStore.Proposal.proposalOptions == old(*ctx.ProposalMasterStore.Proposal.proposalOptions)))   // C14.validate-only-pure
 //@   ensures result0 ==> err == nil                                                                             // C14.update-result
 //@   ensures !result0 ==> err != nil                                                                            // C14.update-result
 
 //@ func propOptionsgeneralfundingDeadline
 //@   safety C18
 //@   requires ctx != nil && ctx.GovernanceStore != nil && ctx.Header != nil && ctx.ProposalMasterStore != nil && ctx.ProposalMasterStore.Proposal != nil                                                       // C18.ctx
-//@   ensures validationOnly == ValidateOnly ==> govWrites(ctx.GovernanceStore) == old(govWrites(ctx.GovernanceStore)) && vHas(ctx.GovernanceStore.state) == old(vHas(ctx.GovernanceStore.state)) && vVal(ctx.GovernanceStore.state) == old(vVal(ctx.GovernanceStore.state)) && ctx.GovernanceStore.height == old(ctx.GovernanceStore.height) && (ctx.ProposalMasterStore != nil && ctx.ProposalMasterStore.Proposal != nil ==> ctx.ProposalMasterStore.Proposal.proposalOptions == old(ctx.ProposalMasterStore.Proposal.proposalOptions))   // C14.validate-only-pure
+//@   ensures validationOnly == ValidateOnly ==> govWrites(ctx.GovernanceStore) == old(govWrites(ctx.GovernanceStore)) && vHas(ctx.GovernanceStore.state) == old(vHas(ctx.GovernanceStore.state)) && vVal(ctx.GovernanceStore.state) == old(vVal(ctx.GovernanceStore.state)) && ctx.GovernanceStore.height == old(ctx.GovernanceStore.height) && (ctx.ProposalMasterStore != nil && ctx.ProposalMasterStore.Proposal != nil ==> ctx.ProposalMasterStore.Proposal.proposalOptions == old(ctx.ProposalMasterStore.Proposal.proposalOptions) && (ctx.ProposalMasterStore.Proposal.proposalOptions != nil ==> *ctx.ProposalMasterStore.Proposal.proposalOptions == old(*ctx.ProposalMasterStore.Proposal.proposalOptions)))   // C14.validate-only-pure
 //@   ensures result0 ==> err == nil                                                                             // C14.update-result
 //@   ensures !result0 ==> err != nil                                                                            // C14.update-result
 
 //@ func propOptionsconfigUpdatepassPercentage
 //@   safety C18
 //@   requires ctx != nil && ctx.GovernanceStore != nil && ctx.Header != nil && ctx.ProposalMasterStore != nil && ctx.ProposalMasterStore.Proposal != nil                                                       // C18.ctx
-//@   ensures validationOnly == ValidateOnly ==> govWrites(ctx.GovernanceStore) == old(govWrites(ctx.GovernanceStore)) && vHas(ctx.GovernanceStore.state) == old(vHas(ctx.GovernanceStore.state)) && vVal(ctx.GovernanceStore.state) == old(vVal(ctx.GovernanceStore.state)) && ctx.GovernanceStore.height == old(ctx.GovernanceStore.height) && (ctx.ProposalMasterStore != nil && ctx.ProposalMasterStore.Proposal != nil ==> ctx.ProposalMasterStore.Proposal.proposalOptions == old(ctx.ProposalMasterStore.Proposal.proposalOptions))   // C14.validate-only-pure
+//@   ensures validationOnly == ValidateOnly ==> govWrites(ctx.GovernanceStore) == old(govWrites(ctx.GovernanceStore)) && vHas(ctx.GovernanceStore.state) == old(vHas(ctx.GovernanceStore.state)) && vVal(ctx.GovernanceStore.state) == old(vVal(ctx.GovernanceStore.state)) && ctx.GovernanceStore.height == old(ctx.GovernanceStore.height) && (ctx.ProposalMasterStore != nil && ctx.ProposalMasterStore.Proposal != nil ==> ctx.ProposalMasterStore.Proposal.proposalOptions == old(ctx.ProposalMasterStore.Proposal.proposalOptions) && (ctx.ProposalMasterStore.Proposal.proposalOptions != nil ==> *ctx.ProposalMasterStore.Proposal.proposalOptions == old(*ctx.ProposalMasterStore.Proposal.proposalOptions)))   // C14.validate-only-pure
 //@   ensures result0 ==> err == nil                                                                             // C14.update-result
 //@   ensures !result0 ==> err != nil                                                                            // C14.update-result
 
 //@ func propOptionscodeChangepassPercentage
 //@   safety C18
 //@   requires ctx != nil && ctx.GovernanceStore != nil && ctx.Header != nil && ctx.ProposalMasterStore != nil && ctx.ProposalMasterStore.Proposal != nil                                                       // C18.ctx
-//@   ensures validationOnly == ValidateOnly ==> govWrites(ctx.GovernanceStore) == old(govWrites(ctx.GovernanceStore)) && vHas(ctx.GovernanceStore.state) == old(vHas(ctx.GovernanceStore.state)) && vVal(ctx.GovernanceStore.state) == old(vVal(ctx.GovernanceStore.state)) && ctx.GovernanceStore.height == old(ctx.GovernanceStore.height) && (ctx.ProposalMasterStore != nil && ctx.ProposalMasterStore.Proposal != nil ==> ctx.ProposalMasterStore.Proposal.proposalOptions == old(ctx.ProposalMasterStore.Proposal.proposalOptions))   // C14.validate-only-pure
+//@   ensures validationOnly == ValidateOnly ==> govWrites(ctx.GovernanceStore) == old(govWrites(ctx.GovernanceStore)) && vHas(ctx.GovernanceStore.state) == old(vHas(ctx.GovernanceStore.state)) && vVal(ctx.GovernanceStore.state) == old(vVal(ctx.GovernanceStore.state)) && ctx.GovernanceStore.height == old(ctx.GovernanceStore.height) && (ctx.ProposalMasterStore != nil && ctx.ProposalMasterStore.Proposal != nil ==> ctx.ProposalMasterStore.Proposal.proposalOptions == old(ctx.ProposalMasterStore.Proposal.proposalOptions) && (ctx.ProposalMasterStore.Proposal.proposalOptions != nil ==> *ctx.ProposalMasterStore.Proposal.proposalOptions == old(*ctx.ProposalMasterStore.Proposal.proposalOptions)))   // C14.validate-only-pure
 //@   ensures result0 ==> err == nil                                                                             // C14.update-result
 //@   ensures !result0 ==> err != nil                                                                            // C14.update-result
 
 //@ func propOptionsgeneralpassPercentage
 //@   safety C18
 //@   requires ctx != nil && ctx.GovernanceStore != nil && ctx.Header != nil && ctx.ProposalMasterStore != nil && ctx.ProposalMasterStore.Proposal != nil                                                       // C18.ctx
-//@   ensures validationOnly == ValidateOnly ==> govWrites(ctx.GovernanceStore) == old(govWrites(ctx.GovernanceStore)) && vHas(ctx.GovernanceStore.state) == old(vHas(ctx.GovernanceStore.state)) && vVal(ctx.GovernanceStore.state) == old(vVal(ctx.GovernanceStore.state)) && ctx.GovernanceStore.height == old(ctx.GovernanceStore.height) && (ctx.ProposalMasterStore != nil && ctx.ProposalMasterStore.Proposal != nil ==> ctx.ProposalMasterStore.Proposal.proposalOptions == old(ctx.ProposalMasterStore.Proposal.proposalOptions))   // C14.validate-only-pure
+//@   ensures validationOnly == ValidateOnly ==> govWrites(ctx.GovernanceStore) == old(govWrites(ctx.GovernanceStore)) && vHas(ctx.GovernanceStore.state) == old(vHas(ctx.GovernanceStore.state)) && vVal(ctx.GovernanceStore.state) == old(vVal(ctx.GovernanceStore.state)) && ctx.GovernanceStore.height == old(ctx.GovernanceStore.height) && (ctx.ProposalMasterStore != nil && ctx.ProposalMasterStore.Proposal != nil ==> ctx.ProposalMasterStore.Proposal.proposalOptions == old(ctx.ProposalMasterStore.Proposal.proposalOptions) && (ctx.ProposalMasterStore.Proposal.proposalOptions != nil ==> *ctx.ProposalMasterStore.Proposal.proposalOptions == old(*ctx.ProposalMasterStore.Proposal.proposalOptions)))   // C14.validate-only-pure
 //@   ensures result0 ==> err == nil                                                                             // C14.update-result
 //@   ensures !result0 ==> err != nil                                                                            // C14.update-result
 
 //@ func onsOptionsperBlockFees
 //@   safety C18
 //@   requires ctx != nil && ctx.GovernanceStore != nil && ctx.Header != nil && ctx.Domains != nil                                                       // C18.ctx
-//@   ensures validationOnly == ValidateOnly ==> govWrites(ctx.GovernanceStore) == old(govWrites(ctx.GovernanceStore)) && vHas(ctx.GovernanceStore.state) == old(vHas(ctx.GovernanceStore.state)) && vVal(ctx.GovernanceStore.state) == old(vVal(ctx.GovernanceStore.state)) && ctx.GovernanceStore.height == old(ctx.GovernanceStore.height) && (ctx.Domains != nil ==> ctx.Domains.opt == old(ctx.Domains.opt))   // C14.validate-only-pure
+//@   ensures validationOnly == ValidateOnly ==> govWrites(ctx.GovernanceStore) == old(govWrites(ctx.GovernanceStore)) && vHas(ctx.GovernanceStore.state) == old(vHas(ctx.GovernanceStore.state)) && vVal(ctx.GovernanceStore.state) == old(vVal(ctx.GovernanceStore.state)) && ctx.GovernanceStore.height == old(ctx.GovernanceStore.height) && (ctx.Domains != nil ==> ctx.Domains.opt == old(ctx.Domains.opt) && (ctx.Domains.opt != nil ==> *ctx.Domains.opt == old(*ctx.Domains.opt)))   // C14.validate-only-pure
 //@   ensures result0 ==> err == nil                                                                             // C14.update-result
 //@   ensures !result0 ==> err != nil                                                                            // C14.update-result
 
 //@ func onsOptionsbaseDomainPrice
 //@   safety C18
 //@   requires ctx != nil && ctx.GovernanceStore != nil && ctx.Header != nil && ctx.Domains != nil                                                       // C18.ctx
-//@   ensures validationOnly == ValidateOnly ==> govWrites(ctx.GovernanceStore) == old(govWrites(ctx.GovernanceStore)) && vHas(ctx.GovernanceStore.state) == old(vHas(ctx.GovernanceStore.state)) && vVal(ctx.GovernanceStore.state) == old(vVal(ctx.GovernanceStore.state)) && ctx.GovernanceStore.height == old(ctx.GovernanceStore.height) && (ctx.Domains != nil ==> ctx.Domains.opt == old(ctx.Domains.opt))   // C14.validate-only-pure
+//@   ensures validationOnly == ValidateOnly ==> govWrites(ctx.GovernanceStore) == old(govWrites(ctx.GovernanceStore)) && vHas(ctx.GovernanceStore.state) == old(vHas(ctx.GovernanceStore.state)) && vVal(ctx.GovernanceStore.state) == old(vVal(ctx.GovernanceStore.state)) && ctx.GovernanceStore.height == old(ctx.GovernanceStore.height) && (ctx.Domains != nil ==> ctx.Domains.opt == old(ctx.Domains.opt) && (ctx.Domains.opt != nil ==> *ctx.Domains.opt == old(*ctx.Domains.opt)))   // C14.validate-only-pure
 //@   ensures result0 ==> err == nil                                                                             // C14.update-result
 //@   ensures !result0 ==> err != nil                                                                            // C14.update-result
 
 //@ func feeOptionminFeeDecimal
 //@   safety C18
 //@   requires ctx != nil && ctx.GovernanceStore != nil && ctx.Header != nil && ctx.FeePool != nil                                                       // C18.ctx
-//@   ensures validationOnly == ValidateOnly ==> govWrites(ctx.GovernanceStore) == old(govWrites(ctx.GovernanceStore)) && vHas(ctx.GovernanceStore.state) == old(vHas(ctx.GovernanceStore.state)) && vVal(ctx.GovernanceStore.state) == old(vVal(ctx.GovernanceStore.state)) && ctx.GovernanceStore.height == old(ctx.GovernanceStore.height) && (ctx.FeePool != nil ==> ctx.FeePool.feeOpt == old(ctx.FeePool.feeOpt))   // C14.validate-only-pure
+//@   ensures validationOnly == ValidateOnly ==> govWrites(ctx.GovernanceStore) == old(govWrites(ctx.GovernanceStore)) && vHas(ctx.GovernanceStore.state) == old(vHas(ctx.GovernanceStore.state)) && vVal(ctx.GovernanceStore.state) == old(vVal(ctx.GovernanceStore.state)) && ctx.GovernanceStore.height == old(ctx.GovernanceStore.height) && (ctx.FeePool != nil ==> ctx.FeePool.feeOpt == old(ctx.FeePool.feeOpt) && (ctx.FeePool.feeOpt != nil ==> *ctx.FeePool.feeOpt == old(*ctx.FeePool.feeOpt)))   // C14.validate-only-pure
 //@   ensures result0 ==> err == nil                                                                             // C14.update-result
 //@   ensures !result0 ==> err != nil                                                                            // C14.update-result
 
